@@ -144,6 +144,10 @@ func RunHistory(rng *common.Rng, cfg Config) (*Run, error) {
 	idleMust := make([]bool, cfg.K)     // IDLE was entered while a removal was known to be held back: it must be announced
 	staleSel := make([]bool, cfg.K)     // the session (re-)selected while updates from before the SELECT were still queued for it
 	selfReadd := make([]bool, cfg.K)    // the session copied/moved a message onto its own selected mailbox
+	// a .SILENT store was issued after such a self re-add: its (untold) effect may reach the NEW instance only with a later
+	// permitting command, after FETCH responses of earlier changes: the flags the mirror learns meanwhile are not the
+	// final ones and the client knows that (it asked for silence); the next probe resynchronises
+	silentDeferred := make([]bool, cfg.K)
 	for i := range mir {
 		mir[i] = &Mirror{}
 	}
@@ -222,6 +226,7 @@ func RunHistory(rng *common.Rng, cfg Config) (*Run, error) {
 		if o.Cmd == "select" {
 			overtook[o.S] = false
 			selfReadd[o.S] = false
+			silentDeferred[o.S] = false
 			staleSel[o.S] = verifhook.Held(w.StateID[o.S]) > 0
 		}
 		if (o.Cmd == "copy" || o.Cmd == "move") && m.Selected && o.Mb == m.Mb {
@@ -345,13 +350,14 @@ func RunHistory(rng *common.Rng, cfg Config) (*Run, error) {
 						fail("C01", c01Canon(m, data), fmt.Sprintf("session %d seq %d: learnt UID %d, server now reports UID %d", o.S, r.N, c.UID, r.UID))
 						break
 					}
-					if c.HasF && !eqInts(c.Flags, setOf(r.Flags)) {
+					if c.HasF && !silentDeferred[o.S] && !eqInts(c.Flags, setOf(r.Flags)) {
 						fail("C01", "learnt flags differ from reported flags", fmt.Sprintf("session %d seq %d (uid %d): learnt %v, reported %v", o.S, r.N, r.UID, c.Flags, r.Flags))
 						break
 					}
 				}
 			}
 			// resynchronise the mirror with what the server says, then apply the rest
+			silentDeferred[o.S] = false
 			m.Cells = m.Cells[:0]
 			for _, r := range data {
 				m.Cells = append(m.Cells, Cell{UID: r.UID, Flags: setOf(r.Flags), HasF: true})
@@ -374,6 +380,9 @@ func RunHistory(rng *common.Rng, cfg Config) (*Run, error) {
 				if p >= 1 && p <= len(m.Cells) {
 					m.Cells[p-1].HasF = false
 				}
+			}
+			if selfReadd[o.S] {
+				silentDeferred[o.S] = true
 			}
 		}
 		return obs, nil
